@@ -82,6 +82,24 @@ pub fn run(r: &mut Report) {
             }
         }
     }
+    // layouts may list two steps under one name (nothing rejects that): EVERY listed step must be satisfied by its own functionaries
+    for (id, second_keys_are_bobs, threshold2, bob_link, expect) in [
+        ("duplicate-step-name-second-needs-other-functionary", true, 1u32, false, false),
+        ("duplicate-step-name-second-satisfied", true, 1, true, true),
+        ("duplicate-step-name-second-has-higher-threshold", false, 2, false, false),
+        ("duplicate-step-name-identical-steps", false, 1, false, true),
+    ] {
+        let d = tmpdir();
+        write_link(d.path(), "a", ka.key_id(), &signed_link(&la, &[&ka]));
+        if bob_link { write_link(d.path(), "a", kb.key_id(), &signed_link(&la, &[&kb])); }
+        let s1 = step("a", 1, &[&ka], allow_all(), allow_all());
+        let s2 = if second_keys_are_bobs { step("a", threshold2, &[&kb], allow_all(), allow_all()) } else { step("a", threshold2, &[&ka], allow_all(), allow_all()) };
+        let l = layout(vec![s1, s2], vec![], &[&ka, &kb], 30);
+        let lay = signed_layout(&l, &[&owner]);
+        let res = no_panic(|| in_toto_verify(&lay, owner_keys(&[&owner]), d.path().to_str().unwrap(), None));
+        r.case(id, json!({"steps": ["a (key2, threshold 1)", format!("a ({}, threshold {})", if second_keys_are_bobs { "key3" } else { "key2" }, threshold2)], "links": if bob_link { "key2, key3" } else { "key2" }}),
+               if expect { "Ok" } else { "Err" }, match &res { Ok(v) => verdict(v), Err(p) => format!("panic: {}", p) }, matches!(&res, Ok(v) if v.is_ok() == expect));
+    }
     // one functionary cannot fill a second functionary's slot with a bogus signature entry naming the other key
     {
         let d = tmpdir();
